@@ -162,12 +162,18 @@ def capacity_exceeded(ts, nset, caps):
 
 
 def run(ctx, chk):
-    cfgs = ["std", "alloc", "none"]
+    # both = std and alloc together: must be exactly std (analysed only when its MIR differs from std's)
+    both = ctx.both_differs()
+    cfgs = ["std", "alloc", "none"] + (["both"] if both else [])
+    chk.note("std+alloc: %s" % ("MIR differs from std, compared in full" if both else "MIR identical to std"))
     ctx.prefetch(cfgs)
     # ---- (1) message layouts
     L = {c: ctx.layouts(c)[1] for c in cfgs}
     n1 = compare_layouts(chk, "std", L["std"], "alloc", L["alloc"], False)
     n1 += compare_layouts(chk, "alloc", L["alloc"], "std", L["std"], False)
+    if both:
+        n1 += compare_layouts(chk, "std", L["std"], "both", L["both"], False)
+        n1 += compare_layouts(chk, "both", L["both"], "std", L["std"], False)
     n2 = compare_layouts(chk, "std", L["std"], "none", L["none"], True)
     # every std region must be covered by no-alloc outcomes as well
     ib = index(L["none"])
@@ -203,6 +209,7 @@ def run(ctx, chk):
             sig.setdefault(repr(key), 0)
         cells[c] = set(sig)
     chk.ob(cells["std"] == cells["alloc"], "C18/fsm/std-vs-alloc/%d" % len(cells["std"] ^ cells["alloc"]), "reassembly relation differs between std and alloc: %r" % (sorted(cells["std"] ^ cells["alloc"])[:2],))
+    chk.ob(not both or cells["std"] == cells["both"], "C18/fsm/std-vs-both/%d" % len(cells["std"] ^ cells.get("both", cells["std"])), "reassembly relation differs between std and std+alloc: %r" % (sorted(cells["std"] ^ cells.get("both", cells["std"]))[:2],))
     # in the no-alloc build the accepting cells carry an extra 'fits the buffer' conjunct: compare modulo facts on lengths
     chk.ob(cells["std"] <= cells["none"] or cells["std"] == cells["none"] or len(cells["std"] - cells["none"]) == 0,
            "C18/fsm/std-vs-none/%d" % len(cells["std"] - cells["none"]), "reassembly relation of std has cells the no-alloc build lacks: %r" % (sorted(cells["std"] - cells["none"])[:2],),
@@ -226,6 +233,7 @@ def run(ctx, chk):
             summ.add(repr((sorted((repr(k), v.iv) for k, v in g.items() if k == ("sym", "fill")), strip(C.val(st, rv)))))
         U[c] = summ
     chk.ob(U["std"] == U["alloc"], "C18/unarmor/std-vs-alloc", "unarmor differs between std and alloc")
+    chk.ob(not both or U["std"] == U["both"], "C18/unarmor/std-vs-both", "unarmor differs between std and std+alloc")
     chk.ob(len(U["std"] - U["none"]) == 0 or all("quot" in x for x in U["std"] ^ U["none"]), "C18/unarmor/std-vs-none/%d" % len(U["std"] - U["none"]),
            "unarmor outcomes of std missing from the no-alloc build: %r" % (sorted(U["std"] - U["none"])[:1],), sample={"unarmor_outcomes": {c: len(U[c]) for c in cfgs}})
     # ---- (4) leaf decoder tables
@@ -265,8 +273,8 @@ def run(ctx, chk):
                 if pw is not None:
                     PW.setdefault(c, {})[d.replace(I.f.crate + "::", "")] = pw
         T[c] = tabs
-    for name in sorted(set(T["std"]) | set(T["none"]) | set(T["alloc"])):
-        a, b, n = T["std"].get(name), T["alloc"].get(name), T["none"].get(name)
+    for name in sorted(set(T["std"]) | set(T["none"]) | set(T["alloc"]) | set(T.get("both", {}))):
+        a, b, n, ab = T["std"].get(name), T["alloc"].get(name), T["none"].get(name), T.get("both", T["std"]).get(name)
         def same(x, y, cx, cy):
             if x is None or y is None:
                 # a helper that exists (under this definition path) in one configuration only, e.g. a
@@ -279,6 +287,7 @@ def run(ctx, chk):
             px, py = PW.get(cx, {}).get(name), PW.get(cy, {}).get(name)
             return px is not None and px == py
         chk.ob(same(a, b, "std", "alloc"), "C18/leaf/std-vs-alloc/%s" % name, "decoder %s has different tables in std and alloc" % name)
+        chk.ob(same(a, ab, "std", "both"), "C18/leaf/std-vs-both/%s" % name, "decoder %s has different tables in std and std+alloc" % name)
         chk.ob(same(a, n, "std", "none"), "C18/leaf/std-vs-none/%s" % name, "decoder %s has different tables in std and no-alloc: %r vs %r" % (name, (a or [])[:2], (n or [])[:2]),
                sample={"leaf": name, "rows": len(a or [])})
     chk.cov["leaf_tables_compared"] = len(T["std"])
@@ -286,8 +295,8 @@ def run(ctx, chk):
     nscripts = check_local_combinators(ctx, chk, 5 if ctx.tier == "thorough" else 4)
     chk.cov["local_combinator_scripts"] = nscripts
     chk.cov["configs"] = cfgs
-    chk.cov["programs"] = 3
-    chk.cov["trusted_base"] = ["rustc MIR of the three configurations", "nom / heapless / alloc contracts in xform.py"]
+    chk.cov["programs"] = 4
+    chk.cov["trusted_base"] = ["rustc MIR of the four feature combinations", "nom / heapless / alloc contracts in xform.py"]
     chk.ob(n1 + n2 >= 300 and len(T["std"]) >= 25, "C18/floor/%d/%d" % (n1 + n2, len(T["std"])), "too little compared: %d layout pairs, %d leaf tables" % (n1 + n2, len(T["std"])))
 
 
